@@ -24,7 +24,7 @@ def render(o):
     except core.Timeout:
         raise
     except BaseException as e:  # noqa
-        j = ('raised', type(e).__name__, str(e)[:100])
+        j = ('raised', core.ename(e), str(e)[:100])
     try:
         if isinstance(o, Serializable):
             m = o.as_markdown()
@@ -33,7 +33,7 @@ def render(o):
     except core.Timeout:
         raise
     except BaseException as e:  # noqa
-        m = ('raised', type(e).__name__, str(e)[:100])
+        m = ('raised', core.ename(e), str(e)[:100])
     return j, m
 
 
